@@ -250,7 +250,7 @@ func c03Run(c c03Case, o *hx.Obs) {
 				if v, ok := gt[d.Name]; ok {
 					b[d.Name] = v
 				}
-				if df := dm.Diff(entryNode, a, b, dm.DiffOpts{ListsAsSets: !store.KeepsOrder(), IgnoreEmptyList: true}, ""); len(df) > 0 {
+				if df := dm.Diff(entryNode, a, b, dm.DiffOpts{ListsAsSets: !store.KeepsOrder(), IgnoreEmptyList: true, ZeroIsUnset: store.ZeroIsUnset()}, ""); len(df) > 0 {
 					o.Failf(sigBase+"untouched"+tail, "a path the source does not mention changed during a failed %s:\n%s", api, joinMax(df, 4))
 					return
 				}
@@ -262,7 +262,7 @@ func c03Run(c c03Case, o *hx.Obs) {
 		o.Failf(sigBase+"errclass(ok)"+tail, "%s should succeed but failed: %v\ntarget %s\nsource %s", api, xerr, dm.ToJSON("", root, c.Target, dm.JSONStyle{}), short(c.Source))
 		return
 	}
-	if df := dm.Diff(root, want, got, dm.DiffOpts{ListsAsSets: !store.KeepsOrder(), IgnoreEmptyList: true}, ""); len(df) > 0 {
+	if df := dm.Diff(root, want, got, dm.DiffOpts{ListsAsSets: !store.KeepsOrder(), IgnoreEmptyList: true, ZeroIsUnset: store.ZeroIsUnset()}, ""); len(df) > 0 {
 		o.Failf(sigBase+dm.Clause(df[0])+tail, "%s result differs from the keyed deep merge:\n%s\ntarget %s\nsource %s", api, joinMax(df, 5), dm.ToJSON("", root, c.Target, dm.JSONStyle{}), short(c.Source))
 	}
 }
@@ -290,6 +290,9 @@ func c03Gen(dstKinds, srcKinds []string, strategies []dm.Strategy) func(t *rapid
 		if dst != "rs" {
 			o.CompoundKeys = false
 			o.Types = []string{"int8", "int32", "int64", "uint16", "uint64", "decimal64", "string", "boolean"}
+		}
+		if strings.HasSuffix(dst, "-struct") {
+			o.Choices, o.NestedChoice, o.Defaults, o.Presence = false, false, false, false
 		}
 		m := dm.GenModule(t, o)
 		to := dm.TreeOpts{MaxEntries: 3, EasyKeys: true, EasyStrings: true, PresentPct: 75, NoEmptyStr: true}
@@ -335,8 +338,8 @@ var allStrategies = []dm.Strategy{dm.Upsert, dm.Insert, dm.Update}
 
 var c03Merge = hx.Register(&hx.Check[c03Case]{
 	Name: "c03-merge",
-	Rule: "schema (containers, nested lists, leaves with defaults, leaf-lists, choices) + universe tree; target and source are independent sub-samples of the universe (source leaves redrawn with p=1/2); strategy x entry point (root, container, list, list entry present in the target) x XFrom/XInto x source store {reference, JSON reader} x target store {reference, map-backed Reflect, map-backed Node}; oracle = harness keyed deep merge with conflict / not-found classes; non-trivial = an error is expected or the merge changes a non-empty target",
-	Gen:  c03Gen([]string{"rs", "rs", "reflect-map", "node-map"}, []string{"rs", "json"}, allStrategies),
+	Rule: "schema (containers, nested lists, leaves with defaults, leaf-lists, choices) + universe tree; target and source are independent sub-samples of the universe (source leaves redrawn with p=1/2); strategy x entry point (root, container, list, list entry present in the target) x XFrom/XInto x source store {reference, JSON reader} x target store {reference, map-backed Reflect, map-backed Node, struct-backed Reflect, struct-backed Node}; oracle = harness keyed deep merge with conflict / not-found classes; non-trivial = an error is expected or the merge changes a non-empty target",
+	Gen:  c03Gen([]string{"rs", "rs", "reflect-map", "node-map", "reflect-struct", "node-struct"}, []string{"rs", "json"}, allStrategies),
 	Run:  c03Run,
 })
 
